@@ -11,6 +11,7 @@ import tempfile
 import numpy as np
 
 from vf import gen, ops as O
+from vf import monitor
 from vf.monitor import snapshot, diff_snap
 from vf.oracle import native as N
 
@@ -34,7 +35,39 @@ def pure(rec, op, key, fn, args, mech=None):
         rec.bad(op, key, {"arguments_changed": changed[:4], "raised": repr(err)[:200] if err else None}, mech or ("argument-mutated:" + op.split(":")[-1]))
     else:
         rec.ok(op, key + ("|raised" if err is not None else ""))
+    rng = FAULT.get("rng")
+    if not changed and err is None and rng is not None and rng.random() < FAULT["p"]:
+        faulted(rec, op, key, fn, args, before, rng)
     return err
+
+
+FAULT = {"rng": None, "p": 0.2}
+
+
+def faulted(rec, op, key, fn, args, before, rng):
+    """The same call again with a failpoint: the k-th entry into a repository function raises. Whatever the call had done
+    up to then, the caller's objects must be what they were."""
+    fp = monitor.Failpoints()
+    n = fp.count(fn)
+    if not n:
+        rec.skip("failpoint", "no repository function entered (or sys.monitoring unavailable)")
+        return
+    k = int(rng.integers(1, n + 1))
+    seen, where, err = fp.inject(fn, k)
+    if where is None:
+        rec.skip("failpoint", "entry count changed between runs")
+        return
+    changed = []
+    for name, v in args.items():
+        d = diff_snap(before[name], snapshot(v))
+        if d:
+            changed.append((name, d))
+    fam = op.split(":")[0]
+    if changed:
+        rec.bad("failpoint:" + fam, key, {"operation": op, "failpoint": where, "entry": k, "of": n, "arguments_changed": changed[:4], "raised": repr(err)[:200]},
+                "argument-left-modified-when-a-callee-raises:" + op.split(":")[-1])
+    else:
+        rec.ok("failpoint:" + fam, key + "|at=" + where.split(":")[-1])
 
 
 def repo_tests(ctx, mode, tests):
@@ -72,12 +105,16 @@ def run(ctx):
     tmp = tempfile.mkdtemp(prefix="vf-c17-")
     try:
         for i, rng in ctx.cases("accessor", ctx.n(260, 6000)):
+            FAULT["rng"] = rng
             accessor_ops(ctx, rng, xr)
         for i, rng in ctx.cases("sel", ctx.n(200, 5000)):
+            FAULT["rng"] = rng
             selection(ctx, rng, xr)
         for i, rng in ctx.cases("construct", ctx.n(160, 4000)):
+            FAULT["rng"] = rng
             construct(ctx, rng, xr, wavespectra)
         for i, rng in ctx.cases("readers", ctx.n(400, 8000)):
+            FAULT["rng"] = rng
             readers(ctx, rng, xr, wavespectra)
         for i, rng in ctx.cases("file_readers", ctx.n(48, 1000)):
             d = tempfile.mkdtemp(dir=tmp)
@@ -86,9 +123,11 @@ def run(ctx):
             finally:
                 shutil.rmtree(d, ignore_errors=True)
         for i, rng in ctx.cases("tracking", ctx.n(48, 1000)):
+            FAULT["rng"] = rng
             tracking(ctx, rng, xr)
         for i, rng in ctx.cases("writers", ctx.n(160, 4000)):
             d = tempfile.mkdtemp(dir=tmp)
+            FAULT["rng"] = rng
             try:
                 writers(ctx, rng, xr, wavespectra, d)
             finally:
